@@ -31,7 +31,7 @@ func main() {
 	seed := *hlib.FlagSeed
 	quickTier = !hlib.Thorough()
 	kslib.InstallDetRand(seed)
-	w := &world{o: o, seed: seed, seen: map[string]bool{}, reported: map[string]int{}, pools: map[string][]*gcase{}, perturb: map[string][]perturbSrc{}}
+	w := &world{o: o, seed: seed, seen: map[string]bool{}, reported: map[string]int{}, pools: map[string][]*gcase{}, perturb: map[string][]perturbSrc{}, unserN: map[string]int{}}
 	t0 := time.Now()
 	lap := func(what string) {
 		fmt.Fprintf(os.Stderr, "c12: %-28s %6.1fs  lines=%d\n", what, time.Since(t0).Seconds(), o.N)
@@ -67,6 +67,8 @@ func main() {
 	lap("stream 2: perturbed inputs")
 	w.keysetStream(hlib.NewRng(seed, "c12/keysets"))
 	lap("stream 3: keysets")
+	w.unserializableKeysets(hlib.NewRng(seed, "c12/unser"))
+	lap("stream 3b: unserializable keys")
 
 	for t, n := range keygenRefused {
 		o.Hist["keygen-refuses-valid-parameters(built-with-NewKey)/"+t] = n
